@@ -19,6 +19,14 @@ RULE_FR = ("streams USE/CAE (well-formed frame -> encoder -> decoder): all 8 fla
            "data lengths 0..=8, then random frames (two thirds fragment-shaped) with boundary-biased ids/addresses and 0x00/0xff runs in the data")
 RULE_CAD = ("stream CAD (driver CAN frame -> from_bxcan_frame): all 8192 patterns of identifier bits 28..16 (flags, all 64 reserved-bit patterns, id nibble) x boundary and random "
             "addresses x data lengths 0..=8, multi-frame ids without data, standard ids and remote frames of every length, random extended ids")
+FRG = dict(stream="FRG", module="RP.Glue.StreamPacket")
+REA = dict(stream="REA", module="RP.Glue.StreamPacket")
+BLD = dict(stream="BLD", module="RP.Glue.StreamPacket")
+RULE_PKT = ("packets of every payload length 0..=64, 7k-1/7k/7k+1 for k in {36,37,255,256,257} (thorough: 4095,4096), 1785..=1800, 28664..=28672, and "
+            "log-uniform random lengths; either error flag, boundary-biased addresses, constant/index-coloured/random bytes")
+RULE_BLD = ("stream BLD: start frame announcing 1,2,3,256,257,4095,4096 or 1..12 frames (single or multi, either type; sometimes not a legal start frame) followed by 1..=40 frames "
+            "drawn from {right next frame, duplicate, gap, id congruent mod 256, id = announced count, id beyond, other device, other error type, start frame, single-frame, "
+            "non-multi, last-kinded continuation, random id, any data length}; plus complete 257- and 4096-frame reassemblies followed by surplus frames")
 RULE_DEC = ("stream DEC (decoder kind, packet): every decoder x every payload length 0..=70 with the kind's code in place and tag-like bytes; "
             "valid encodings from an independent layout table, each perturbed (error flag, every code 0..=0x12/0xffff, length +-1, truncation at a random "
             "point, bit flip, foreign decoder, every variant tag and flag byte 0..=255, 32-bit message tags incl. >= 256, non-zero padding, declared data "
@@ -37,6 +45,33 @@ NOTE_COMMON = ("Proved of the hand-written Gallina model (no axioms; Print Assum
 
 
 PROPS = {
+    "C02": dict(
+        vfiles=["Props/C02"],
+        technique="Coq proof by induction on the frame index with the invariant 'the builder holds the first k frames of the fragmentation' (no bound below the 12-bit id limit), composed with the CAN/USART round-trip theorems for fragment-shaped frames; correspondence on boundary-size packets through all three paths",
+        level_text="Theorems C02_direct (for every packet of 0..=28672 bytes: every state before the last frame reports frames left > 0 and MissingFrames, the last frame gives frames left = 0 "
+                   "and build = the original packet), C02_via_can and C02_via_usart (encoding and decoding every frame of the fragmentation returns the same frame list).",
+        level_note=NOTE_COMMON,
+        streams=[dict(REA, view="view_C02", ok="ok_C02")],
+        rule="stream REA: " + RULE_PKT + "; each packet goes through to_frames and the direct / CAN-codec / USART-codec paths into a fresh PacketBuilder, frames_left observed after every frame, build probed before the last frame",
+    ),
+    "C07": dict(
+        vfiles=["Props/C07"],
+        technique="Coq proof: add_frame characterised against the independent predicate 'accepts' (iff), rejection reasons against reject_reason_applies, invariant wf_builder preserved over every finite history by induction, build characterised; correspondence + reference reassembler on generated histories",
+        level_text="Theorems C07_accept_iff, C07_reject_reason, C07_no_panic, C07_new, C07_invariant (for EVERY finite history of well-formed frames after a start frame: 1 <= accepted <= announced <= 4096, "
+                   "frames_left = announced - accepted without underflow), C07_build (complete iff exactly the announced number was accepted; payload = in-order concatenation).",
+        level_note=NOTE_COMMON,
+        streams=[dict(BLD, view="view_C07", ok="ok_C07")],
+        rule=RULE_BLD,
+    ),
+    "C10": dict(
+        vfiles=["Props/C10"],
+        technique="Coq proof that the index-arithmetic model of to_frames (as-u16 truncations, checked subtraction, checked slices) equals an independently written structural 7-byte chunker for all payloads up to 28672 bytes; correspondence frame-by-frame",
+        level_text="Theorems C10_to_frames_spec (to_frames p = the reference fragmenter, never panics, for every packet up to 28672 bytes) and corollaries C10_single, C10_count, C10_multi_frame, "
+                   "C10_chunks_concat, C10_frames_good (every frame well-formed, first data byte = low id byte, right id kind).",
+        level_note=NOTE_COMMON,
+        streams=[dict(FRG, view="view_C10", ok="ok_C10")],
+        rule="stream FRG: " + RULE_PKT + "; the full frame list is compared field by field",
+    ),
     "C03": dict(
         vfiles=["Props/C03"],
         technique="Coq proof (case analysis over 16 kinds + lia on big-endian arithmetic) of decode(encode e) = e over the model; model tied to code by differential correspondence on generated events",
